@@ -13,6 +13,7 @@ import Driver.C16
 import Driver.Wild
 import Driver.Config
 import Driver.C19
+import Driver.C12
 
 open Corerad
 
@@ -24,7 +25,8 @@ def handlers : List (String × (List String → List String → Option Verdict))
   ("wr", Driver.Wild.wr), ("wrerr", Driver.Wild.wrerr),
   ("cfg", Driver.Config.cfg), ("fuzz", Driver.Config.fuzz),
   ("ra1", Driver.Config.ra1), ("ra3", Driver.Config.ra3), ("ra4", Driver.Config.ra4),
-  ("ws", Driver.C19.ws), ("wsu", Driver.C19.wsu)
+  ("ws", Driver.C19.ws), ("wsu", Driver.C19.wsu),
+  ("vr", Driver.C12.vr)
 ]
 
 def runLine (line : String) : String :=
